@@ -120,6 +120,29 @@ def bisect (R tol : Rat) : List Probe → Nat → Outcome
     else if p.stalled then .raised (n + 1)
     else bisect R tol ps (n + 1)
 
+/-- a statement executed after the last evaluation of the tolerance test and before `return mask`:
+does it assign / modify `mask`, and (for the semantics) what it does to the realised acceleration -/
+structure PostStmt where
+  modifiesMask : Bool
+  effect : Rat → Rat
+
+def applyPost (post : List PostStmt) (a : Rat) : Rat :=
+  post.foldl (fun x s => if s.modifiesMask then s.effect x else x) a
+
+/-- `poisson` as the caller sees it: the outcome of the bisection with the acceleration of the
+**returned** mask, i.e. after whatever the code still does to `mask` once the tolerance was tested -/
+def poisson (R tol : Rat) (ps : List Probe) (post : List PostStmt) : Outcome :=
+  match bisect R tol ps 0 with
+  | .returned a n => .returned (applyPost post a) n
+  | o => o
+
+/-- generated table `(statement text, modifies mask)` of the statements between the last tolerance
+evaluation and `return mask`: admissible when none modifies `mask` -/
+def postOk (tbl : List (String × Bool)) : Bool := tbl.all fun s => !s.2
+
+def postOfTable (tbl : List (String × Bool)) (effect : Rat → Rat) : List PostStmt :=
+  tbl.map fun s => ⟨s.2, effect⟩
+
 /-! ### source skeletons the models above mirror (compared with the generated ones by the bridge) -/
 
 /-- `_gaussian.pyx`: (kernel, initialisation, loop condition, acceptance test, accepted branch) — `gaussLoop` -/
